@@ -17,6 +17,17 @@ CHECKS = {
             "Assumes TLC evaluates the spec correctly and the projection (lists of ints/characters) is faithful. "
             "User regexes are limited to the rule-record families the spec interprets.", "DESIGN.md §6 C06"),
 }
+CHECKS["C01"] = (
+    "TLA+ reference spec (Annotation.tla, ProFormaText.tla) + TLC enumeration of the bounded annotation space with "
+    "law checking (MC_ProForma) whose cases are replayed into the real parser/serializer + TLC trace validation "
+    "(Trace_ProForma)",
+    "TLC enumerates every annotation of a bounded feature cross product, checks the reference-layer laws on it and "
+    "emits each annotation with its spellings; the real parse/serialize/constructor are run on every spelling and on "
+    "seeded larger annotations (length <=25, 1-3 chains), and TLC decides for each recorded call whether the parsed "
+    "structure, both serialisations, the re-parse and == are what the notation denotes.",
+    "Assumes TLC evaluates the spec correctly; the projection of ProFormaAnnotation (None and [] identified) is "
+    "faithful; the text renderer of the random generator is re-checked by TLC against ProFormaText!WriteV for every event.",
+    "DESIGN.md §6 C01")
 NOT_YET = "check not built yet in this round (planned with the TLA+ technique, see DESIGN.md §6)"
 
 
